@@ -1,53 +1,14 @@
-//! throw-away probe: positional value_terminator semantics
-use clap::{Arg, ArgAction, Command};
-fn show(cmd: &Command, argv: &[&str]) {
-    let r = cmd.clone().try_get_matches_from(argv.iter().copied());
-    match r {
-        Ok(m) => {
-            let mut out = String::new();
-            for id in m.ids() {
-                let id = id.as_str();
-                let vals: Vec<Vec<String>> = m
-                    .get_raw_occurrences(id)
-                    .map(|o| o.map(|g| g.map(|v| v.to_string_lossy().into_owned()).collect()).collect())
-                    .unwrap_or_default();
-                let idx: Vec<usize> = m.indices_of(id).map(|i| i.collect()).unwrap_or_default();
-                out.push_str(&format!(" {id}={vals:?}@{idx:?}"));
-            }
-            println!("{argv:?} -> Ok{out}");
-        }
-        Err(e) => println!("{argv:?} -> Err {:?} {}", e.kind(), e.to_string().lines().next().unwrap_or("")),
-    }
-}
+//! throw-away probe: alias-only long flag subcommands under infer_subcommands
+use clap::Command;
 fn main() {
-    let a = Command::new("p")
-        .arg(Arg::new("v").short('v').action(ArgAction::SetTrue))
-        .arg(Arg::new("one").required(true))
-        .arg(Arg::new("m").num_args(1..).value_terminator(";").required(true))
-        .arg(Arg::new("t").required(true));
-    for l in [
-        vec!["p", "x", "a", "b", ";", "d"],
-        vec!["p", "x", "a", "b", "-v", ";", "d"],
-        vec!["p", "x", "a", "b", "c"],
-        vec!["p", "x", "a", "b", ";"],
-        vec!["p", "x", "a", "-v", "b", ";", "d"],
-        vec!["p", "x", ";", "d"],
-        vec!["p", "x", "a", ";", "d", "e"],
-    ] {
-        show(&a, &l);
-    }
-    let b = Command::new("p")
-        .arg(Arg::new("v").short('v').action(ArgAction::SetTrue))
-        .arg(Arg::new("m").num_args(1..).value_terminator(";"))
-        .arg(Arg::new("l").num_args(1..).last(true));
-    for l in [
-        vec!["p", "a", "b", "--", "t1", "t2"],
-        vec!["p", "a", "b", ";", "--", "t1"],
-        vec!["p", "--", "t1", "t2"],
-        vec!["p", "a", "--", ";", "t"],
-        vec!["p", "a", "-v", "--", "t"],
-        vec!["p", "a", ";", "t"],
-    ] {
-        show(&b, &l);
+    for infer in [false, true] {
+        let cmd = Command::new("p")
+            .infer_subcommands(infer)
+            .subcommand(Command::new("sub").long_flag("co").long_flag_alias("verbose").long_flag_alias("lf-one"))
+            .subcommand(Command::new("subtle").long_flag_alias("verb").long_flag_alias("lf-two"));
+        for argv in [vec!["p", "--verb"], vec!["p", "--lf-two"], vec!["p", "--lf-t"], vec!["p", "--verbose"], vec!["p", "--verbo"]] {
+            let r = cmd.clone().try_get_matches_from(argv.clone());
+            println!("infer={infer} {argv:?} -> {:?}", r.map(|m| m.subcommand_name().map(|s| s.to_owned())).map_err(|e| e.kind()));
+        }
     }
 }
